@@ -215,9 +215,11 @@ def h_skel(o0: bool, o1: bool, o2: bool, o3: bool, o4: bool, o5: bool, o6: bool)
 # --------------------------------------------------------------------------
 # layer B: rendered programs
 
-COND = ["#ifdef A", "#ifndef A", "#if A", "#if defined(A) && !defined(B)", "#if defined A || B", "#if A == 2", "#ifdef B",
+# "#if A + 0", "#elif A + 0 == 0": conditions that stay well-formed when A is defined with an EMPTY value (-DA=): the
+# macro vanishes, `+ 0` remains (placed where the quick tier's renderings r = 0, 1 reach them)
+COND = ["#if A + 0", "#ifdef A", "#ifndef A", "#if A", "#if defined(A) && !defined(B)", "#if defined A || B", "#if A == 2", "#ifdef B",
         "#if !A", "#if B > A", "#if defined(B)"]
-ELIF = ["#elif B", "#elif defined B", "#elif A == 0", "#elif defined(A)", "#elif !defined(A) && !defined(B)", "#elif A"]
+ELIF = ["#elif B", "#elif A + 0 == 0", "#elif defined B", "#elif A == 0", "#elif defined(A)", "#elif !defined(A) && !defined(B)", "#elif A"]
 DEFS = ["#define A 1", "#define B 1", "#undef A", "#define A 0", "#undef B", "#define C A"]
 CLASSES = [None, "A", "A=", "A=0", "A=2"]
 BCLASSES = [None, "B", "B=0", "B=", "B=3"]
